@@ -82,8 +82,8 @@ Proof. exact refuted_lenient_strip. Qed.
 Print Assumptions rfc7233_refuted_lenient_strip.
 
 Theorem rfc7233_refuted_digit_limit :
-  let h := bytes_of_string "bytes=0-" ++ repeat 57 4301 in
-  range_strict h = false /\ (exists l, rfc_ranges h = Some [FromTo 0 l]) /\ status (render GET ten_bytes (Some h)) = 200.
+  let h := bytes_of_string "bytes=" ++ repeat 48 4301 ++ [45] in        (* 4301 zeros, "-" *)
+  range_strict h = false /\ rfc_ranges h = Some [From 0] /\ status (render GET ten_bytes (Some h)) = 200.
 Proof. exact refuted_digit_limit. Qed.
 Print Assumptions rfc7233_refuted_digit_limit.
 
